@@ -8,7 +8,67 @@ package wkb
 
 //@ func readPoints
 //@   prop C07
-//@   opt noframe=geom.Point,uint32,float64
 //@   requires [reader] typeof(r) != nil && typeof(byteOrder) != nil
 //@   ensures [geometry_or_error] result1 == nil ==> len(result0) >= 0
 //@   assert [count_checked_against_input] `points := make([]geom.Point, numPoints)` 16 * numPoints <= remaining(r)
+
+// The per-type readers: whatever the bytes are, they return a geometry or an
+// error and never fail a type assertion, index out of range or dereference nil.
+// Read itself dispatches through a package-level map of function values and is
+// taken as an opaque source of (geometry, error) pairs.
+
+//@ func Read
+//@   prop C07
+//@   trusted dispatch through the package-level registry of reader functions (dynamic calls through a global map)
+//@   opt writes=geom.Point,geom.Path,geom.LineString,geom.Polygon,geom.Geom,uint32,float64,alloc
+//@   requires [reader] typeof(r) != nil
+//@   modifies nothing
+
+//@ func pointReader
+//@   prop C07
+//@   requires [reader] typeof(r) != nil && typeof(byteOrder) != nil
+
+//@ func lineStringReader
+//@   prop C07
+//@   requires [reader] typeof(r) != nil && typeof(byteOrder) != nil
+//@   ensures [geometry_or_error] result1 == nil ==> typeof(result0) == geom.LineString
+
+//@ func polygonReader
+//@   prop C07
+//@   requires [reader] typeof(r) != nil && typeof(byteOrder) != nil
+//@   ensures [geometry_or_error] result1 == nil ==> typeof(result0) == geom.Polygon
+//@   loop 1 `for i := uint32(0); i < numRings; i++`
+//@     invariant 0 <= i && i <= numRings && len(rings) == numRings && fresh(rings)
+//@     decreases numRings - i
+
+//@ func multiPointReader
+//@   prop C07
+//@   requires [reader] typeof(r) != nil && typeof(byteOrder) != nil
+//@   ensures [geometry_or_error] result1 == nil ==> typeof(result0) == geom.MultiPoint
+//@   loop 1 `for i := uint32(0); i < numPoints; i++`
+//@     invariant 0 <= i && i <= numPoints && len(points) == numPoints && fresh(points)
+//@     decreases numPoints - i
+
+//@ func multiLineStringReader
+//@   prop C07
+//@   requires [reader] typeof(r) != nil && typeof(byteOrder) != nil
+//@   ensures [geometry_or_error] result1 == nil ==> typeof(result0) == geom.MultiLineString
+//@   loop 1 `for i := uint32(0); i < numLineStrings; i++`
+//@     invariant 0 <= i && i <= numLineStrings && len(lineStrings) == numLineStrings && fresh(lineStrings)
+//@     decreases numLineStrings - i
+
+//@ func multiPolygonReader
+//@   prop C07
+//@   requires [reader] typeof(r) != nil && typeof(byteOrder) != nil
+//@   ensures [geometry_or_error] result1 == nil ==> typeof(result0) == geom.MultiPolygon
+//@   loop 1 `for i := uint32(0); i < numPolygons; i++`
+//@     invariant 0 <= i && i <= numPolygons && len(polygons) == numPolygons && fresh(polygons)
+//@     decreases numPolygons - i
+
+//@ func geometryCollectionReader
+//@   prop C07
+//@   requires [reader] typeof(r) != nil && typeof(byteOrder) != nil
+//@   ensures [geometry_or_error] result1 == nil ==> typeof(result0) == geom.GeometryCollection
+//@   loop 1 `for i := uint32(0); i < numGeometries; i++`
+//@     invariant 0 <= i && i <= numGeometries && len(geoms) == numGeometries && fresh(geoms)
+//@     decreases numGeometries - i
